@@ -1,1 +1,2 @@
-"""C01"""
+"""C01 -- proof part from the contracts tagged C01; bounded comparison with the documented-semantics oracle."""
+from bounded.bC01 import run as bounded  # noqa: F401
